@@ -391,3 +391,30 @@ Proof.
   exists m. destruct (accepted_in _ _ _ Hm) as [H1 H2]. simpl. repeat split; auto.
   eapply accepted_key_nonempty; eauto. reflexivity.
 Qed.
+
+(* the limits documented by AWS for PutRecords, as numbers *)
+Definition within_aws (L : klimits) : Prop :=
+  (max_records L <= 500)%N /\ (max_batch_bytes L <= 5 * 2^20)%N /\ (max_record_bytes L <= 2^20)%N.
+
+Lemma kinesis_ok_aws L b : within_aws L -> kinesis_ok L b ->
+  (N.of_nat (List.length (b_items b)) <= 500)%N /\
+  sum_N (map rsize (b_items b)) = b_bytes b /\
+  (sum_N (map rsize (b_items b)) <= 5 * 2^20)%N /\
+  Forall (fun r => (r_len r <= 2^20)%N) (b_items b).
+Proof.
+  intros (L1 & L2 & L3) (H1 & H2 & H3 & H4). rewrite <- H2.
+  split; [exact (N.le_trans _ _ _ H1 L1)|]. split; [reflexivity|]. split; [exact (N.le_trans _ _ _ H3 L2)|].
+  eapply Forall_impl; [|exact H4]. intros r Hr. exact (N.le_trans _ _ _ Hr L3).
+Qed.
+
+Lemma kinesis_limits_aws L : within_aws L -> forall meth pk ms b obs,
+  run_adds L (new_batch (BKinesis meth) pk) ms = (b, obs) ->
+  (N.of_nat (List.length (b_items b)) <= 500)%N /\
+  sum_N (map rsize (b_items b)) = b_bytes b /\
+  (sum_N (map rsize (b_items b)) <= 5 * 2^20)%N /\
+  Forall (fun r => (r_len r <= 2^20)%N) (b_items b).
+Proof.
+  intros HL meth pk ms b obs H. apply (kinesis_ok_aws L b HL).
+  destruct (kinesis_limits_gen L meth pk ms b obs H) as (H1 & H2 & H3 & H4).
+  unfold kinesis_ok. rewrite <- H2. auto.
+Qed.
